@@ -19,6 +19,13 @@ CLAIMS = {
          "n x n x 3 tables, id order, position and bucket-id matrices; the library's tables are also checked against the definition itself.",
          "Trusted: Coq kernel + vm_compute; hand-written model; harness; exact float sums on the 1/8000 grid; unit weights.",
          "DESIGN.md section 4, C02"),
+ "C13": ("Coq theorems over a Gallina model of copeland.py (on the proved cost table) + vm_compute correspondence",
+         "Machine-checked for all tables/datasets: outcome of a pair = comparison of the definitional before/after costs, antisymmetry "
+         "(victory of x = defeat of y), counts sum to n-1, scores sum to n(n-1)/2, consensus is a partition of the universe into non-empty "
+         "buckets in decreasing score order tied exactly on equal scores (generic sort-and-group lemma). Consensus, copeland_scores and "
+         "copeland_victories of the library are compared with the model and re-checked against the cost definition inside Coq.",
+         "Trusted: Coq kernel + vm_compute; hand-written model; harness; numpy argsort returns a permutation; float scores on the half-point grid.",
+         "DESIGN.md section 4, C13"),
 }
 NOT_YET = "check not built yet in this phase (planned: DESIGN.md section 4); no claim is made"
 
